@@ -818,20 +818,20 @@ theorem handleConnack_tr (s : S) (sp : Bool) (result : Nat) (ok : Bool) :
     rcases reconnect_tr s1 ok with h | h
     · exact Or.inl (Tr.frame_left f h)
     · exact Or.inr (f.trans h)
-  case case5 pre hpre h41 s1 s2 shown s3 hres s' rc hx =>
+  case case5 pre hpre h41 s1 shown s3 hres s' rc hx =>
     have f : FrQ s s3 := by
-      refine ⟨?_, ?_, ?_⟩ <;> simp only [Pre, qpubs, evsOf, view, s3, s2, s1] <;> split <;> simp [isQPublish]
+      refine ⟨?_, ?_, ?_⟩ <;> simp only [Pre, qpubs, evsOf, view, s3, s1] <;> split <;> simp [isQPublish]
     refine ⟨fun _ => ?_, fun h => absurd hres h⟩
     have hs' : s' = (s3.connackResend (s3.out.length + 1) 0 rcSuccess).1 := by rw [hx]
     rw [hs']
     exact Tr.frame_left f (connackResend_tr _ _ _ _)
-  case case6 pre hpre h41 s1 s2 shown s3 hres hr =>
+  case case6 pre hpre h41 s1 shown s3 hres hr =>
     have f : FrQ s s3 := by
-      refine ⟨?_, ?_, ?_⟩ <;> simp only [Pre, qpubs, evsOf, view, s3, s2, s1] <;> split <;> simp [isQPublish]
+      refine ⟨?_, ?_, ?_⟩ <;> simp only [Pre, qpubs, evsOf, view, s3, s1] <;> split <;> simp [isQPublish]
     exact ⟨fun h => absurd h hres, fun _ => Or.inr f⟩
-  case case7 pre hpre h41 s1 s2 shown s3 hres hr =>
+  case case7 pre hpre h41 s1 shown s3 hres hr =>
     have f : FrQ s s3 := by
-      refine ⟨?_, ?_, ?_⟩ <;> simp only [Pre, qpubs, evsOf, view, s3, s2, s1] <;> split <;> simp [isQPublish]
+      refine ⟨?_, ?_, ?_⟩ <;> simp only [Pre, qpubs, evsOf, view, s3, s1] <;> split <;> simp [isQPublish]
     exact ⟨fun h => absurd h hres, fun _ => Or.inr f⟩
 
 theorem conf_puback (s : S) (mid : Nat) (h : s.conformingRx (.puback mid) = true) :
